@@ -304,15 +304,19 @@ PROPS["C29"] = dict(
 
 # --------------------------------------------------------------------------- C31
 PROPS["C31"] = dict(
-    functions=["revm::Evm::{transact, transact_preverified, preverify_transaction} and the error-hook closures they pass to Result::inspect_err (crates/revm/src/evm.rs)"],
+    functions=["revm::Evm::{transact, transact_preverified, preverify_transaction} and the error-hook closures they pass to Result::inspect_err (crates/revm/src/evm.rs)",
+               "revm::EvmContext::set_precompiles (context/evm_context.rs), revm::handler::mainnet::load_accounts (handler/mainnet/pre_execution.rs)"],
     bounds="every entry->return path of the three (acyclic) MIR control-flow graphs and of each inspect_err closure; the Err edge of a `?` that follows an inspect_err "
            "arrives `cleared` only if that closure clears on every one of its paths",
     outside="that post_execution().clear / JournaledState::clear / finalize actually reset every field (transient storage, warm set, logs, depth: hash maps, DESIGN §2); "
-            "loaded precompiles and spec changes between transactions; equality of result sequences with a fresh EVM (whole-transaction histories); transact_commit and "
+            "loaded precompiles and spec changes between transactions beyond the two reset points decided here (EvmContext::set_precompiles replaces the set on every path, "
+            "mainnet load_accounts sets the journal's spec first on every path; that transact_preverified_inner calls both is read from source only); equality of result sequences with a fresh EVM (whole-transaction histories); transact_commit and "
             "the inspector entry points",
     assumptions=["context-touching calls are: validation env / initial_tx_gas / tx_against_state, preverify_transaction_inner, transact_preverified_inner, post_execution().end",
                  "z3 4.8.12 and cvc5 1.0 agree; a sat path is replayed by a rejected transaction on a real Evm (native tool: journal must be empty afterwards)"],
-    jobs=[dict(name="e3::clear_on_every_exit", fn=jobs_e3.run_clear_on_exit)],
+    jobs=[dict(name="e3::clear_on_every_exit", fn=jobs_e3.run_clear_on_exit),
+          # spec change on a reused EVM: precompiles are replaced and the journal's spec is set at the start of every transaction
+          dict(name="e3::per_transaction_reset_of_precompiles_and_journal_spec", fn=__import__("jobs_c31").run_reuse_spec_change)],
 )
 
 # --------------------------------------------------------------------------- C32
